@@ -41,9 +41,21 @@ RULE_VOCAB = [
 ]
 
 
+# the same vocabulary over module names that are legal identifiers but change under Unicode normalisation (NFKC) or
+# differ only in case: a name is the exact string the user supplied
+ALT_NAMES = [("\ufb01le_store", "\u00b5_service"), ("Mod", "mod"), ("\uff44\uff41\uff54\uff41", "data")]
+
+
+def alt_vocab(pair):
+    m = {"mod_m": pair[0], "mod_n": pair[1]}
+    sub = lambda a: m.get(a, a) if isinstance(a, str) else [m.get(x, x) for x in a] if isinstance(a, list) else a  # noqa: E731
+    return [(n, sub(a)) if n == "containing_modules" else (n, a) for n, a in ARCH_VOCAB]
+
+
 def plan(tier, seed):
     la, lr = (5, 6) if tier == "quick" else (6, 7)
     specs = [{"kind": "arch", "len": la, "first": i} for i in range(len(ARCH_VOCAB))]
+    specs += [{"kind": "arch_alt", "len": la - 1, "pair": i} for i in range(len(ALT_NAMES))]
     specs += [{"kind": "rule", "len": lr, "third": i} for i in range(len(RULE_VOCAB))]
     specs += [{"kind": "random", "n": 1500 if tier == "quick" else 40000} for _ in range(2 if tier == "quick" else 6)]
     return specs
@@ -117,6 +129,11 @@ def run_shard(spec, acc):
         acc.flags["exhaustive_arch"] = True
         if spec["first"] == 0:
             acc.sample({"kind": "arch sequence", "calls": [["layer", "A"], ["containing_modules", "mod_m"], ["layer", "B"], ["containing_modules", "mod_m"]], "expected": "last call rejected with ImproperlyConfigured"})
+    elif spec["kind"] == "arch_alt":
+        vocab = alt_vocab(ALT_NAMES[spec["pair"]])
+        for first in vocab:
+            dfs([first], vocab, spec["len"], run_arch_sequence, acc)
+        acc.count("sequences_over_normalisation_sensitive_names")
     elif spec["kind"] == "rule":
         # every live chain starts with based_on, layers_that (anything else is rejected at once; those prefixes are run too)
         first_two = [RULE_VOCAB[0], RULE_VOCAB[1]]
